@@ -116,6 +116,102 @@ def _add_gate_row(call, nq, arg_names):
     return c.args[0], tg, ct, passes
 
 
+def _module_str_dict(tree, name, where):
+    """module-level constant `NAME = {"k": "v", ...}` that is assigned once and never mutated"""
+    found = None
+    for n in tree.body:
+        tgt = None
+        if isinstance(n, ast.Assign) and len(n.targets) == 1 and isinstance(n.targets[0], ast.Name):
+            tgt, val = n.targets[0].id, n.value
+        elif isinstance(n, ast.AnnAssign) and isinstance(n.target, ast.Name) and n.value is not None:
+            tgt, val = n.target.id, n.value
+        if tgt == name:
+            if found is not None:
+                raise Broken(where, f"table {name} is assigned twice")
+            if not isinstance(val, ast.Dict):
+                raise Broken(where, f"table {name} is not a dict literal")
+            found = []
+            for k, v in zip(val.keys, val.values):
+                if not (isinstance(k, ast.Constant) and isinstance(k.value, str) and isinstance(v, ast.Constant) and isinstance(v.value, str)):
+                    raise Broken(where, f"table {name}: entry is not str: str")
+                if k.value in [x for x, _ in found]:
+                    raise Broken(where, f"table {name}: key {k.value} repeated")
+                found.append((k.value, v.value))
+    if found is None:
+        raise Broken(where, f"module-level table {name} not found")
+    for n in ast.walk(tree):      # the table must be a constant: no stores into it, no mutating method calls, no deletion
+        if isinstance(n, (ast.Subscript, ast.Attribute)) and isinstance(n.value, ast.Name) and n.value.id == name:
+            if isinstance(n, ast.Subscript) and isinstance(n.ctx, (ast.Store, ast.Del)):
+                raise Broken(where, f"table {name} is modified")
+            if isinstance(n, ast.Attribute) and n.attr in ("update", "pop", "popitem", "clear", "setdefault", "__setitem__", "__delitem__"):
+                raise Broken(where, f"table {name} is modified through .{n.attr}")
+        if isinstance(n, (ast.Global, ast.Nonlocal)) and name in n.names:
+            raise Broken(where, f"table {name} is rebound")
+        if isinstance(n, ast.FunctionDef) and any(isinstance(m, ast.Assign) and any(isinstance(t, ast.Name) and t.id == name for t in m.targets)
+                                                    for m in ast.walk(n)):
+            raise Broken(where, f"table {name} is shadowed in {n.name}")
+    return found
+
+
+def _str_table(tree, stmts, subject, target, fallback, where):
+    """name -> string table selecting `target` by `subject`, with `fallback` statements on a miss.  Accepted spellings:
+       (A) if subject == "K": target = "V" elif ... else: <fallback>
+       (B) target = TABLE.get(subject[, None]);  if target is None: <fallback>
+       (C) if subject in TABLE: target = TABLE[subject]  else: <fallback>
+       (D) if subject not in TABLE: <fallback>;  target = TABLE[subject]
+       TABLE = module-level constant dict literal of strings.  Anything else is refused."""
+    un = [ast.unparse(x) for x in stmts]
+    fb = lambda body: [ast.unparse(x) for x in body] == fallback
+
+    def is_lookup(v):          # TABLE[subject]
+        return isinstance(v, ast.Subscript) and isinstance(v.value, ast.Name) and ast.unparse(v.slice) == subject
+
+    # (A)
+    if len(stmts) == 1 and isinstance(stmts[0], ast.If) and isinstance(stmts[0].test, ast.Compare) \
+            and isinstance(stmts[0].test.ops[0], ast.Eq):
+        rows, node = [], stmts[0]
+        while True:
+            t = node.test
+            if not (isinstance(t, ast.Compare) and ast.unparse(t.left) == subject and len(t.ops) == 1 and isinstance(t.ops[0], ast.Eq)
+                    and isinstance(t.comparators[0], ast.Constant) and isinstance(t.comparators[0].value, str)):
+                raise Broken(where, "test: " + ast.unparse(t))
+            if not (len(node.body) == 1 and isinstance(node.body[0], ast.Assign) and ast.unparse(node.body[0].targets[0]) == target
+                    and isinstance(node.body[0].value, ast.Constant) and isinstance(node.body[0].value.value, str)):
+                raise Broken(where, f"branch is not {target} = <str>")
+            if t.comparators[0].value not in [k for k, _ in rows]:      # an earlier branch wins, as in Python
+                rows.append((t.comparators[0].value, node.body[0].value.value))
+            if len(node.orelse) == 1 and isinstance(node.orelse[0], ast.If):
+                node = node.orelse[0]
+            elif fb(node.orelse):
+                return rows
+            else:
+                raise Broken(where, "chain does not end in: " + "; ".join(fallback))
+    # (B)
+    if len(stmts) == 2 and isinstance(stmts[0], ast.Assign) and ast.unparse(stmts[0].targets[0]) == target \
+            and isinstance(stmts[0].value, ast.Call) and isinstance(stmts[0].value.func, ast.Attribute) and stmts[0].value.func.attr == "get" \
+            and isinstance(stmts[0].value.func.value, ast.Name) and not stmts[0].value.keywords \
+            and [ast.unparse(a) for a in stmts[0].value.args] in ([subject], [subject, "None"]) \
+            and isinstance(stmts[1], ast.If) and ast.unparse(stmts[1].test) in (f"{target} is None", f"not {target}") \
+            and not stmts[1].orelse and fb(stmts[1].body):
+        rows = _module_str_dict(tree, stmts[0].value.func.value.id, where)
+        if ast.unparse(stmts[1].test) == f"not {target}" and any(v == "" for _, v in rows):
+            raise Broken(where, "truthiness test with an empty definition string")
+        return rows
+    # (C)
+    if len(stmts) == 1 and isinstance(stmts[0], ast.If) and isinstance(stmts[0].test, ast.Compare) and isinstance(stmts[0].test.ops[0], ast.In) \
+            and ast.unparse(stmts[0].test.left) == subject and isinstance(stmts[0].test.comparators[0], ast.Name) \
+            and len(stmts[0].body) == 1 and isinstance(stmts[0].body[0], ast.Assign) and ast.unparse(stmts[0].body[0].targets[0]) == target \
+            and is_lookup(stmts[0].body[0].value) and stmts[0].body[0].value.value.id == stmts[0].test.comparators[0].id and fb(stmts[0].orelse):
+        return _module_str_dict(tree, stmts[0].test.comparators[0].id, where)
+    # (D)
+    if len(stmts) == 2 and isinstance(stmts[0], ast.If) and isinstance(stmts[0].test, ast.Compare) and isinstance(stmts[0].test.ops[0], ast.NotIn) \
+            and ast.unparse(stmts[0].test.left) == subject and isinstance(stmts[0].test.comparators[0], ast.Name) \
+            and not stmts[0].orelse and fb(stmts[0].body) and isinstance(stmts[1], ast.Assign) and ast.unparse(stmts[1].targets[0]) == target \
+            and is_lookup(stmts[1].value) and stmts[1].value.value.id == stmts[0].test.comparators[0].id:
+        return _module_str_dict(tree, stmts[0].test.comparators[0].id, where)
+    raise Broken(where, "shape changed: " + " | ".join(un)[:300])
+
+
 def generate():
     path = os.path.join(PKG, "qasm.py")
     try:
@@ -321,28 +417,12 @@ def generate():
     outc = _find(top, ast.ClassDef, "QasmOutput")
     qd = _find(outc.body, ast.FunctionDef, "_qasm_defns")
     b = _strip(qd.body)
-    tail = [ast.unparse(x) for x in b[1:]]
-    if len(b) != 4 or not isinstance(b[0], ast.If) or tail != [
+    tail = [ast.unparse(x) for x in b[-3:]]
+    if len(b) < 4 or tail != [
             "self.output('// QuTiP definition for gate {}'.format(gate.name))", "self.output(gate_def)",
             "self.gate_name_map[gate.name] = gate.name.lower()"]:
         raise Broken(W + "_qasm_defns", "shape changed: " + " | ".join(tail)[:200])
-    defns = []
-    node = b[0]
-    while True:
-        t = node.test
-        if not (isinstance(t, ast.Compare) and ast.unparse(t.left) == "gate.name" and isinstance(t.ops[0], ast.Eq)
-                and isinstance(t.comparators[0], ast.Constant)):
-            raise Broken(W + "_qasm_defns", "test: " + ast.unparse(t))
-        if not (len(node.body) == 1 and isinstance(node.body[0], ast.Assign) and ast.unparse(node.body[0].targets[0]) == "gate_def"
-                and isinstance(node.body[0].value, ast.Constant) and isinstance(node.body[0].value.value, str)):
-            raise Broken(W + "_qasm_defns", "branch is not gate_def = <str>")
-        defns.append((t.comparators[0].value, node.body[0].value.value))
-        if len(node.orelse) == 1 and isinstance(node.orelse[0], ast.If):
-            node = node.orelse[0]
-        elif [ast.unparse(x) for x in node.orelse] == ["self._qasm_defn_resolve(gate)", "return"]:
-            break
-        else:
-            raise Broken(W + "_qasm_defns", "chain does not end in _qasm_defn_resolve(gate); return")
+    defns = _str_table(tree, b[:-3], "gate.name", "gate_def", ["self._qasm_defn_resolve(gate)", "return"], W + "_qasm_defns")
 
     out = ["(* GENERATED by tools/translate/qasm_tr.py from qasm.py - do not edit *)",
            "From QV Require Import Found.Sym Gen.Gates.", "Local Open Scope Q_scope.", "Local Open Scope string_scope.", "",
